@@ -2,6 +2,8 @@ package props
 
 import (
 	"fmt"
+	"go/token"
+	"go/types"
 	"sort"
 	"strings"
 
@@ -29,6 +31,8 @@ func runC13(c *Ctx) {
 	c.Rule("C13.O5", "E8", "validCloseCode accepts {1000-1003,1007-1011,3000-4999}, rejects {0-999,1004-1006,1016-2999,>=5000} (1012-1015 unconstrained)", 1)
 	c.Rule("C13.O6", "E3,E7e", "every WebSocket read path tests the error of Parse and fails the connection", 3)
 	c.Rule("C13.O8", "E5", "UTF-8 validity is decided on whole messages: the stateless CheckUtf8 is applied only in the message handler (text message, close reason), never to a single frame's payload (a fragment boundary may fall inside a code point)", 1)
+	c.Rule("C13.O10", "E4", "what Parse hands to the message, frame and control handlers belongs to the frame just parsed: every variable passed to handleMessage / handleDataFrame / handleProtocolMessage is assigned again (reset) on every way round the frame loop before it is passed again; a payload left over from the previous control frame is never answered twice", 3)
+	c13PerFrameOutputs(c)
 	c.Rule("C13.O9", "E4", "the expecting-continuation input of validFrame is the connection's own flag, set on the non-FIN data-frame edge and cleared on the FIN edge (a proxy such as 'a partial message is buffered' is false for an empty first fragment)", 2)
 	c.Rule("C13.O7", "E4", "default ping handler: WriteMessage(Pong, []byte(arg)); default close handler: close frame with the received code, empty for 1005", 2)
 	c13ExpectFlag(c)
@@ -711,4 +715,45 @@ func isFinValue(v ssa.Value) bool {
 		}
 	}
 	return false
+}
+
+// c13PerFrameOutputs: O10.
+func c13PerFrameOutputs(c *Ctx) {
+	parse := c.Fn("C13.O10", "(*websocket.Conn).Parse")
+	if parse == nil {
+		return
+	}
+	fi := c.P.Info(parse)
+	n := 0
+	for _, cs := range c.P.Calls(parse, func(name string, _ ir.CallSite) bool {
+		return name == "(*websocket.Conn).handleMessage" || name == "(*websocket.Conn).handleDataFrame" || name == "(*websocket.Conn).handleProtocolMessage"
+	}) {
+		if !fi.InLoop(cs.In) {
+			continue
+		}
+		for ai, a := range cs.Common.Args {
+			ld, isLoad := ir.Unconv(a).(*ssa.UnOp)
+			if !isLoad || ld.Op != token.MUL {
+				continue
+			}
+			cell, isCell := ld.X.(*ssa.Alloc)
+			if !isCell {
+				continue
+			}
+			if cell.Type().Underlying().(*types.Pointer).Elem().String() != "*[]byte" {
+				continue // only the payload pointers
+			}
+			n++
+			key := fmt.Sprintf("%s: %s arg#%d", c.P.FuncName(parse), c.P.CalleeName(cs.Common), ai)
+			vis, _ := fi.Reach([]ssa.Instruction{cs.In}, func(in ssa.Instruction) bool {
+				st, ok := in.(*ssa.Store)
+				return ok && st.Addr == ssa.Value(cell)
+			})
+			c.Cond(!vis[cs.In], "C13.O10", key, c.Pos(cs.In), "assigned again on every way round the loop",
+				"the payload passed at "+c.Pos(cs.In)+" can still be the previous frame's on the next way round the loop (no assignment to the variable in between; the parsing step assigns it only for a non-empty payload): an empty control frame is answered with the payload of the one before it, and a released buffer is released again")
+		}
+	}
+	if n == 0 {
+		c.Unres("C13.O10", fnKey(c.P, parse, "per-frame outputs"), "no payload variable found at the dispatch sites")
+	}
 }
